@@ -244,7 +244,20 @@ def sign_rule(prog, body, kind):
         if not found:
             # iterator form (max_by / fold): no start value to get wrong
             its = [bd for bd in bodies for _, t in bd.calls() if t.get("f") and t["f"]["path"].endswith(("Iterator::max_by", "Iterator::max_by_key"))]
-            if not its:
+            folds = []
+            for bd in bodies:
+                rs_ = Resolver(bd)
+                for _, t in bd.calls():
+                    if t.get("f") and t["f"]["path"].endswith("Iterator::fold") and len(t["args"]) == 3:
+                        folds.append(rs_.operand(t["args"][1]))
+            for seed in folds:
+                # fold((start, 0), |(best, at), (i, v)| if v > best { (v, i) } else { (best, at) }): the start value of the maximum
+                first = seed[2][0] if seed[0] == "agg" and seed[2] else seed
+                good = (first[0] == "call" and first[1].endswith("::neg_infinity") and not first[2]) or first[0] == "idx" or \
+                    (first[0] == "call" and first[1].endswith(("::get", "Index::index")))
+                if not good:
+                    problems.append(f"the running maximum starts from `{render(first)[:40]}` instead of neg_infinity() or a data element")
+            if not its and not folds:
                 problems.append("could not identify the running-maximum comparison")
     return problems
 
@@ -253,9 +266,33 @@ def argmax_tie_class(prog, body):
     """'first' / 'last' (which of several equal maxima wins) or None if the idiom is not recognised"""
     r = _argmax_tie_class(prog, body)
     if r is None:
-        for cb in prog.closures_of.get(body.path, []):
-            r = r or _argmax_tie_class(prog, cb)
+        stack = list(prog.closures_of.get(body.path, []))
+        while stack:
+            cb = stack.pop()
+            stack.extend(prog.closures_of.get(cb.path, []))
+            r = r or _argmax_tie_class(prog, cb) or _argmax_tie_fold(cb)
     return r
+
+
+def _argmax_tie_fold(cb):
+    """closure of `fold((start, 0), |(best, at), (i, v)| if v > best { (v, i) } else { (best, at) })`: the comparison between
+    the item (closure argument 3) and the accumulator (argument 2); the edge on which a new tuple is built decides"""
+    cx = BodyCtx.of(cb)
+    acc = lambda t: any(x[0] == "arg" and x[1] == 2 for x in [t] + list(subterms(t)))
+    itm = lambda t: any(x[0] == "arg" and x[1] == 3 for x in [t] + list(subterms(t)))
+    builds = [i for i, j, st in cb.stmts() if st["k"] == "assign" and st["r"]["k"] == "agg" and len(st["r"].get("ops", [])) == 2
+              and any(itm(cx.res.operand(o)) for o in st["r"]["ops"])]
+    for c in cx.cmps:
+        for (L, R, rel) in ((c.lhs, c.rhs, c.rel), (c.rhs, c.lhs, guards.FLIP[c.rel])):
+            if itm(L) and not acc(L) and acc(R) and not itm(R):
+                for er, dst, other in ((rel, c.true_bb, c.false_bb), (guards.NEG[rel], c.false_bb, c.true_bb)):
+                    if any(cb.dominates(dst, u) and not cb.dominates(other, u) for u in builds):
+                        atoms = guards.ATOMS[er]
+                        if atoms == frozenset("p"):
+                            return "first"
+                        if atoms == frozenset("pz"):
+                            return "last"
+    return None
 
 
 def _argmax_tie_class(prog, body):
